@@ -1,6 +1,7 @@
 import AwProofs.Lemmas.QueryRun
 import AwProofs.Lemmas.Pipeline
 import AwProofs.Props.C09
+import AwProofs.Props.C10
 import AwProofs.Props.C16
 import AwModel.Query.RegistryGen
 /-!
@@ -268,6 +269,34 @@ theorem total_of_merged_text (r : Reads Data) (S E : Int) (other : Apply) (env :
 example : WFProg (totalOfMerged "win".toList ["app", "title"]) := by
   simp [totalOfMerged, WFProg, WF, WFList, StrOK, Ident, returnName, nameQueryBucket, n]
   decide
+
+
+/-- the program `RETURN = flood(query_bucket(b));` -/
+def floodOfRead (b : Str) : Prog :=
+  [(returnName, .call (n "flood") [.call nameQueryBucket [.str b]])]
+
+/-- END TO END: the query `RETURN = flood(query_bucket(b));` denotes the flooded windowed read of `b` (5 s pulsetime); every
+    event it returns has positive length (C10.out_positive), and when the read is a C10 input (non-overlapping, distinct
+    timestamps) all time the read covers is still covered (C10.input_time_covered) -/
+theorem flood_of_read (r : Reads Data) (S E : Int) (other : Apply) (env : Ns) (b : Str) (evs : List Event)
+    (hq : queryBucket r (String.ofList b) S E = .ok evs) :
+    denoteProg Registry.registry (fullApply r S E other) env (floodOfRead b) =
+        .ok (encEvs (Flood.flood defaultPulse evs)) ∧
+      (∀ e ∈ Flood.flood defaultPulse evs, 0 < e.dur) ∧
+      (AwProofs.C10.Input evs → ∀ t, Aw.Flood.cov evs t → Aw.Flood.cov (Flood.flood defaultPulse evs) t) := by
+  refine ⟨?_, AwProofs.C10.out_positive defaultPulse evs, fun hI t h => AwProofs.C10.input_time_covered defaultPulse evs hI t h⟩
+  have hq' : denote Registry.registry (fullApply r S E other) (baseNs ++ env) (.call nameQueryBucket [.str b]) =
+      .ok (encEvs evs) := by
+    rw [call_denotes (fullApply r S E other) (baseNs ++ env) nameQueryBucket [.str b] _ [.str b] rfl (by simp [denoteList, denote, Except.bind, Except.map])]
+    simp [callBuiltin, callEntry, inject, typecheck, Entry.accepts, PKind.checked, fullApply, dsApply, nameQueryBucket, hq,
+      catchTypeError, encEvs, Pipeline.enc]
+  obtain ⟨ef, hef, hcf⟩ := builtin_flood other evs
+  have hf' : denote Registry.registry (fullApply r S E other) (baseNs ++ env)
+      (.call (n "flood") [.call nameQueryBucket [.str b]]) = .ok (encEvs (Flood.flood defaultPulse evs)) := by
+    rw [call_denotes (fullApply r S E other) (baseNs ++ env) _ _ ef [encEvs evs] hef
+      (by rw [denoteList, hq']; simp [denoteList, Except.bind, Except.map])]
+    rw [callBuiltin_fullApply r S E other ef _ (by cases hef; decide), hcf]
+  simp only [denoteProg, floodOfRead, denoteStmts, hf', Except.bind, get_set_self]
 
 end Pipeline
 
